@@ -4,9 +4,10 @@ from .. import core, gen, ref
 from . import cu
 
 MODULES = ['DsdVerif.Props.C20']
-GEN_FILES = ['LegacyIupac', 'IupacTables']
+GEN_FILES = ['LegacyIupac', 'IupacTables', 'LegacyWrappers']
 THEOREM_NAMES = ['legacy_iupac_agree_dna', 'legacy_iupac_agree_rna', 'legacy_wobble_total']
-THEOREMS = ['Dsd.C20.' + t for t in THEOREM_NAMES] + ['Dsd.C20L.' + t for t in ('legacy_canon_eq', 'legacy_rotations_spec', 'legacy_dup_iff')]
+THEOREMS = ['Dsd.C20.' + t for t in THEOREM_NAMES] + ['Dsd.C20L.' + t for t in ('legacy_canon_eq', 'legacy_rotations_spec', 'legacy_dup_iff')] + \
+    ['Dsd.C20.legacy_wrappers_delegate']
 ASSUMPTIONS = [
     'the legacy SequenceConstraint tables are transcribed from the dictionaries inside its methods (Gen/LegacyIupac.lean, evaluated with '
     'T -> T and T -> U) and compared with the current tables by kernel-decided theorems',
@@ -17,12 +18,14 @@ MANIFEST = {
     'text': 'Partial. Translator-based proof for the sequence-constraint clause: legacy_iupac_agree_dna / _rna (every row of the legacy '
             'complement dictionaries regenerated from deprecated.py agrees with the current table wherever both are defined) and '
             'legacy_wobble_total, decided by the Lean kernel; legacy_canon_eq (the legacy canonical form is the same minimal rotation) as '
-            'listed in the evidence when present. The object-model clauses (pair table, loop indices, kernel string, canonical form, '
+            'listed in the evidence when present; legacy_wrappers_delegate: the five deprecated utility wrappers of utils.py are reduced by the '
+            'translator to what they forward their unchanged parameters to (Gen/LegacyWrappers.lean, regenerated on every run) and are '
+            'exactly delegations to the complex_utils functions modelled and proved for C06-C09. The object-model clauses (pair table, loop indices, kernel string, canonical form, '
             'size, connectivity, exterior / enclosed domains, split components, duplicate detection with the rotation equation) are '
             'decided on the real code by driving DSD_Complex / the deprecated wrappers and ComplexS / complex_utils with the same '
             'descriptions in every rotation.',
-    'note': 'The legacy object model is not separately modelled in Lean; its utility calls are the deprecated wrappers of the modelled functions.',
-    'technique': 'Lean 4 decide over legacy tables regenerated from source; differential exploration of legacy vs current API on the real code',
+    'note': 'The legacy object model (DSD_Complex, 1400 lines) is not modelled in Lean; its utility calls are the deprecated wrappers, which are proved to be delegations.',
+    'technique': 'Lean 4 decide over legacy tables and wrapper delegations regenerated from source; differential exploration of legacy vs current API on the real code',
 }
 
 
